@@ -18,8 +18,23 @@ Known-defect triggers (kept firing, classified by `mechanism`):
   falsy-index-0-output-key-of-assign     assign(Key.Index(0), fn=f) -> 'should have output_keys'
   falsy-index-0-output-key-of-select     select('a', output_keys=Key.Index(0)) stores under 'a'
   invalid-accepted:dup_assign_same_call  assign(('c','c'), fn=f) builds silently
+  aggregate-skip-output-key-read-back-at-get-result   chain.agg(fn, output_keys=('s', SKIP)):
+                                         builds, fails at agg_result after the whole stream
+  repeated-skip-rejected-as-duplicate-output-key      assign((SKIP, 'b', SKIP), fn=f3), an
+                                         aggregate with two SKIPs, stacked aggregates with a
+                                         SKIP each: refused as "duplicate output keys"
 Random chains never contain a trigger (so the rest stays sensitive); a separate
 'triggers' chunk builds chains with exactly one trigger each.
+
+'aggskip' chunks: a random chain followed by 1-3 stacked aggregates of multi-output
+user aggregates whose output_keys hold SKIP at any position (classes: control without
+SKIP / exactly one SKIP / two or more SKIPs in total), and chains ending in an assign
+of a 3 / 4-output function with two or more SKIPs.  Oracle: stream = reference stream,
+agg_result = exactly the kept outputs with the brute-force values
+(`pipeline_interp.run_aggregates`).  A rejection when built is accepted for aggregates
+with SKIP if it is consistent (the first such aggregate alone with one SKIP is refused
+too).  Mechanisms are decided by the input class and differential twins (fresh names in
+place of SKIP / of all SKIPs but one), never by the error text.
 """
 
 from __future__ import annotations
@@ -34,7 +49,10 @@ RULE = (
     'batch/sink, key specs, record stream of 0-6 records, feed kind), generated '
     'from random.Random(seed, chunk, index) by vlib/pipeline_gen.py, which tracks '
     'the record schema through the chain so that every key resolves; plus '
-    'deliberately invalid builds (11 kinds, each with a valid twin); non-trivial = '
+    'deliberately invalid builds (11 kinds, each with a valid twin); plus (aggskip) '
+    'a chain of 0-4 operators followed by 1-3 stacked multi-output aggregates with '
+    'SKIP at any output position (none / one / several SKIPs) or by an assign with '
+    '>= 2 SKIPs; non-trivial = '
     '>= 2 operators, >= 2 records and a key shape other than a single key/SELF; '
     'distinct = hash of chain + records + feed')
 ASSUMPTIONS = [
@@ -57,6 +75,12 @@ ASSUMPTIONS = [
     'generator, SequenceDataSource, .data_source()',
     'apply/select with SELF mixed with other output keys is only observed (the '
     'library checks it for assign and aggregates only)',
+    'aggregates (aggskip): as many plain-name output keys as outputs (a tuple stored '
+    'under one key / SELF is not judged), every aggregate keeps at least one output, '
+    'kept names distinct over the stack, no slicers (C02), num_threads=0; a build-time '
+    'rejection of aggregates with SKIP is accepted when the same chain with only the '
+    'first such aggregate and a single SKIP is rejected as well',
+    'assign with several SKIPs only on dict records, plain fresh names, >= 1 kept key',
 ]
 SHAPES = ['single', 'tuple', 'path', 'index', 'kwargs', 'dictout', 'SELF', 'SKIP',
           'literal']
@@ -67,7 +91,10 @@ INVALID_KINDS = ['dup_assign_prev', 'dup_assign_same_call', 'dup_output_same_cal
                  'chain_dup_name', 'chain_dup_agg_keys', 'fuse_ops_behind_aggregate']
 REQUIRED = (['stream_checks', 'input_identity_checks', 'sink_checks',
              'rebatch_checks', 'selftest_checks', 'invalid_build_checks',
-             'invalid_twin_checks', 'trigger_chains', 'array_twin_checks']
+             'invalid_twin_checks', 'trigger_chains', 'array_twin_checks',
+             'agg_result_checks', 'agg_cases_control', 'agg_cases_one_skip',
+             'agg_cases_repeated_skip', 'agg_stacked_cases',
+             'assign_multi_skip_checks']
             + ['rebatch_apply', 'rebatch_assign', 'rebatch_select', 'rebatch_batch']
             + [f'op_{o}' for o in OPS] + [f'key_{s}' for s in SHAPES]
             + [f'invalid_{k}' for k in INVALID_KINDS])
@@ -78,6 +105,9 @@ FEEDS = ['list', 'list', 'iter', 'gen', 'seq_ds', 'data_source']
 def plan(tier, seed):
   n_chunks, per = (32, 2500) if tier == "quick" else (64, 28000)
   specs = [{'mode': 'selftest'}]
+  for c in range(2 if tier == 'quick' else 8):
+    specs.append({'mode': 'aggskip', 'rseed': seed, 'chunk': c,
+                  'count': 420 if tier == 'quick' else 3000})
   for c in range(n_chunks):
     specs.append({'mode': 'chains', 'rseed': seed, 'chunk': c, 'count': per})
   specs.append({'mode': 'triggers', 'rseed': seed,
@@ -615,9 +645,209 @@ def observe_over_rejection(ctx):
 # ---------------------------------------------------------------------------
 
 
+# ---------------------------------------------------------------------------
+# Outputs dropped with SKIP: aggregates behind a chain, assign with several SKIPs
+# ---------------------------------------------------------------------------
+
+AGG_SKIP_MECH = 'aggregate-skip-output-key-read-back-at-get-result'
+DUP_SKIP_MECH = 'repeated-skip-rejected-as-duplicate-output-key'
+AGG_CLASSES = ['control', 'one', 'one', 'repeat', 'repeat', 'assign']
+
+
+def _err(e):
+  return f'{type(e).__name__}: {short(str(e), 200)}'
+
+
+def build_agg_real(chain, aggs, records, feed):
+  """Builds chain + aggregates through the public API; returns (runner, feed args)."""
+  from vlib import pipeline_gen as g
+  from ml_metrics._src.chainables import io, transform
+  sinks = []
+  if feed == 'data_source':
+    t = transform.TreeTransform.new().data_source(records)
+    args = ()
+  else:
+    t = transform.TreeTransform.new()
+    args = ({'list': lambda: records, 'iter': lambda: iter(records),
+             'gen': lambda: (r for r in records),
+             'seq_ds': lambda: io.SequenceDataSource(records)}[feed](),)
+  for op in chain:
+    t = g.add_op(t, op, g.resolve(op), sinks)
+  return g.add_aggs(t, aggs).make(), args
+
+
+def diff_agg(chain, aggs, records, feed):
+  """-> ('rejected_at_build', error) | ('ok', None) | (problem kind, detail)."""
+  from vlib import pipeline_gen as g
+  from vlib.oracles import pipeline_interp as interp
+  want_stream, _ = interp.run_chain(chain, records, g.resolve)
+  want = interp.run_aggregates(aggs, want_stream, g.make_agg)
+  records = copy.deepcopy(records)
+  try:
+    runner, args = build_agg_real(chain, aggs, records, feed)
+  except Exception as e:  # pylint: disable=broad-exception-caught
+    return 'rejected_at_build', _err(e)
+  consumed = 0
+  try:
+    it = runner.iterate(*args)
+    got_stream = []
+    for rec in it:
+      got_stream.append(rec)
+      consumed += 1
+    got = it.agg_result
+  except Exception as e:  # pylint: disable=broad-exception-caught
+    return 'raised_after_build', {'error': _err(e), 'records_consumed_before': consumed,
+                                  'of': len(want_stream), 'want_result': short(want)}
+  if not same(got_stream, want_stream):
+    return 'stream_differs', {'got': short(got_stream), 'want': short(want_stream)}
+  if not same(got, want):
+    return 'agg_result_differs', {'got': short(got), 'want': short(want)}
+  return 'ok', None
+
+
+def agg_tags(aggs):
+  return ['agg[%d outputs, SKIP at %s]' % (a['n_out'], a['skip']) for a in aggs]
+
+
+def check_agg_case(ctx, case):
+  """case = {'chain', 'records', 'feed', 'aggs': [agg specs], 'class'}.
+
+  Valid-looking pipeline (built without an error): the stream is the reference stream
+  and agg_result holds exactly the kept outputs with the brute-force values.  A
+  rejection when built is accepted for aggregates with SKIP when it is consistent
+  (the first such aggregate alone, with a single SKIP, is rejected as well).
+  The mechanism is decided by the input class plus differential twins (the same
+  pipeline with fresh names in place of SKIP), never by the error text.
+  """
+  from vlib import pipeline_gen as g
+  chain, aggs, feed = case['chain'], case['aggs'], case['feed']
+  records = g.dec(case['records'])
+  n_skips = sum(len(a['skip']) for a in aggs)
+  ctx.case(('aggs', chain, aggs, case['records'], feed), len(records) >= 2)
+  ctx.count('agg_cases_' + ('control' if not n_skips else 'one_skip' if n_skips == 1
+                            else 'repeated_skip'))
+  if len(aggs) > 1:
+    ctx.count('agg_stacked_cases')
+  if len(ctx.samples) < 3 and n_skips:
+    ctx.sample({'chain': chain, 'aggs': aggs, 'records': case['records'][:2], 'feed': feed})
+  try:
+    kind, detail = diff_agg(chain, aggs, records, feed)
+    no_skip = [g.agg_with_skips(a, []) for a in aggs]
+    twin = diff_agg(chain, no_skip, g.dec(case['records']), feed)[0] if n_skips else kind
+  except Exception as e:  # pylint: disable=broad-exception-caught
+    ctx.inconclusive_case(f'oracle failed: {_err(e)}', case)
+    return
+  tags = {'chain': [op_tags(op) for op in chain], 'aggs': agg_tags(aggs), 'feed': feed}
+  if kind == 'ok':
+    ctx.count('agg_result_checks')
+    if n_skips:
+      ctx.count('agg_skip_result_checks')
+    return
+  if kind != 'rejected_at_build':
+    ctx.count('agg_result_checks')
+    # Built without an error, yet the run / the result is not the reference one.
+    mech = AGG_SKIP_MECH if n_skips and twin == 'ok' else \
+        f'unclassified:aggregate:{kind}:no-skip-twin-{twin}'
+    ctx.count('viol:' + mech)
+    ctx.violation(kind, case, dict(detail, **tags), mechanism=mech)
+    return
+  # Rejected when built.
+  ctx.count('agg_build_rejections')
+  if not n_skips or twin == 'rejected_at_build':
+    mech = 'unclassified:aggregate-rejected-at-build-without-skip'
+    ctx.count('viol:' + mech)
+    ctx.violation('valid_rejected_at_build', case, dict(tags, error=detail), mechanism=mech)
+    return
+  first = next(a for a in aggs if a['skip'])
+  reduced = [g.agg_with_skips(first, first['skip'][:1])]
+  try:
+    reduced_kind = diff_agg(chain, reduced, g.dec(case['records']), feed)[0]
+  except Exception as e:  # pylint: disable=broad-exception-caught
+    ctx.inconclusive_case(f'oracle failed: {_err(e)}', case)
+    return
+  ctx.count('agg_consistency_checks')
+  if reduced_kind == 'rejected_at_build':
+    ctx.count('agg_skip_rejected_consistently')
+    return
+  mech = DUP_SKIP_MECH if n_skips >= 2 else \
+      'unclassified:aggregate-single-skip-rejected-at-build-only-when-stacked'
+  ctx.count('viol:' + mech)
+  ctx.violation('valid_rejected_at_build', case, dict(
+      tags, error=detail,
+      note='the first aggregate with a SKIP alone, with one SKIP, is accepted when built: '
+           'the rejection is not a consistent refusal of SKIP in aggregates'),
+                mechanism=mech)
+
+
+def check_multiskip_case(ctx, case):
+  """case = {'chain' (last op: assign, >= 2 SKIPs), 'records', 'feed', 'multiskip': 1}.
+
+  SKIP drops an output, it is not a key: the stream is the reference stream.  The twin
+  (all SKIPs but one replaced by fresh names) must agree as well; only then a failure
+  is attributed to the repeated SKIP.
+  """
+  from vlib import pipeline_gen as g
+  chain, feed = case['chain'], case['feed']
+  last = chain[-1]
+  records = g.dec(case['records'])
+  ctx.case(('multiskip', chain, case['records'], feed), len(records) >= 2)
+  ctx.count('assign_multi_skip_cases')
+  twin_chain = chain[:-1] + [g.agg_with_skips(last, last['skip'][:1])]
+  try:
+    problems, _ = diff_chain(chain, records, feed, g.resolve)
+    twin_problems, _ = diff_chain(twin_chain, g.dec(case['records']), feed, g.resolve)
+  except Exception as e:  # pylint: disable=broad-exception-caught
+    ctx.inconclusive_case(f'oracle failed: {_err(e)}', case)
+    return
+  ctx.count('assign_multi_skip_checks')
+  if not problems:
+    return
+  kind, detail = problems[0]
+  if kind == 'raised':
+    try:
+      g.build(chain, g.resolve)[0].make()
+    except Exception:  # pylint: disable=broad-exception-caught
+      kind = 'valid_rejected_at_build'
+  mech = DUP_SKIP_MECH if not twin_problems else \
+      f'unclassified:assign-several-skips:{kind}:single-skip-twin-{twin_problems[0][0]}'
+  ctx.count('viol:' + mech)
+  ctx.violation(kind, case, dict(detail, chain=[op_tags(op) for op in chain],
+                                 skip_positions=last['skip']), mechanism=mech)
+
+
+def gen_aggskip_case(rseed, chunk, index):
+  from vlib import pipeline_gen as g
+  rng = random.Random(f'C08A:{rseed}:{chunk}:{index}')
+  cls = AGG_CLASSES[index % len(AGG_CLASSES)]
+  shape = rng.choice(['dict', 'dict', 'cols']) if cls == 'assign' else None
+  _, records = g.gen_records(rng, shape=shape,
+                             n=rng.randint(1, 6) if cls == 'assign' else None)
+  n_ops = rng.choice([0, 0, 1, 2, 3, 4])
+  kinds = g.KINDS if cls != 'assign' else [k for k in g.KINDS if k != 'batch']
+  chain, stream, tracked = g.gen_chain(rng, records, n_ops, kinds=kinds)
+  feed = rng.choice(FEEDS)
+  if cls == 'assign':
+    op = g.gen_multi_skip_assign(rng, stream, tracked)
+    if op is None:
+      return None
+    return {'chain': chain + [op], 'records': g.enc(records), 'feed': feed,
+            'multiskip': 1}
+  aggs = g.gen_aggs(rng, stream, cls)
+  if aggs is None:
+    return None
+  return {'chain': chain, 'aggs': aggs, 'records': g.enc(records), 'feed': feed}
+
+
 def run_chunk(ctx, spec):
   from vlib import pipeline_selftest
   mode = spec['mode']
+  if mode == 'aggskip':
+    for i in range(spec['count']):
+      case = gen_aggskip_case(spec['rseed'], spec['chunk'], i)
+      if case is None:
+        continue
+      (check_multiskip_case if 'multiskip' in case else check_agg_case)(ctx, case)
+    return
   if mode == 'selftest':
     pipeline_selftest.run(ctx, same)
     observe_apply_self_mixed(ctx)
@@ -639,7 +869,11 @@ def run_chunk(ctx, spec):
 
 
 def run_case(ctx, case):
-  if 'invalid' in case:
+  if 'aggs' in case:
+    check_agg_case(ctx, case)
+  elif 'multiskip' in case:
+    check_multiskip_case(ctx, case)
+  elif 'invalid' in case:
     check_invalid_case(ctx, case)
   elif 'selftest' in case:
     from vlib import pipeline_selftest
